@@ -364,8 +364,52 @@ func unmarshalKnownShapes(known map[string]bool) {
 	}
 }
 
+// a document that holds a scalar where the target has a struct (old free-text field, new structured one), or an array
+// mixing objects and scalars where it has a slice of structs: Unmarshal reports an error, it never panics
+func unmarshalShapeMismatches(cs *CaseSet, f *failer, evals *int) {
+	for _, c := range []struct {
+		m      map[string]interface{}
+		target reflect.Type
+	}{
+		{map[string]interface{}{"name": "n", "Addr": "free text"}, reflect.TypeOf(UA{})},
+		{map[string]interface{}{"nm": "f", "where": int64(5), "L": []interface{}{map[string]interface{}{"zip": "1"}, "scalar", nil}}, reflect.TypeOf(UB{})},
+		{map[string]interface{}{"M": map[string]interface{}{"k": "not an object"}, "P": true}, reflect.TypeOf(UB{})},
+		{map[string]interface{}{"in": "text", "Top": "t"}, reflect.TypeOf(UNest{})},
+		{map[string]interface{}{"S": []interface{}{[]interface{}{"x"}}, "A": []interface{}{"y"}}, reflect.TypeOf(UMapPtr{})},
+		{map[string]interface{}{"Arr": []interface{}{int64(1), map[string]interface{}{"zip": "z"}}, "PP": "s"}, reflect.TypeOf(UB{})},
+	} {
+		doc := d.NewDocumentOf(copyCanon(c.m))
+		q := reflect.New(c.target)
+		var err error
+		panicked := ""
+		func() {
+			defer func() {
+				if r := recover(); r != nil {
+					panicked = fmt.Sprint(r)
+				}
+			}()
+			err = doc.Unmarshal(q.Interface())
+		}()
+		*evals++
+		if panicked != "" {
+			f.failf("Unmarshal of %s into %s panicked: %s", clip(gValue(c.m), 200), c.target, panicked)
+			continue
+		}
+		var obs T
+		if err != nil {
+			obs = []T{int64(3)}
+		} else {
+			obs = normObs(q.Elem().Interface())
+		}
+		if tyTerm, ok := gGotype(c.target); ok {
+			cs.Add(fmt.Sprintf("(HUnm %s %s %s)", tyTerm, gObj(c.m), Tstr(obs)), false)
+		}
+	}
+}
+
 func runUnmarshalCases(g *Gen, rounds int, cs *CaseSet, f *failer, evals *int, outcomes map[string]int, samples *[]interface{}, known map[string]bool) {
 	unmarshalKnownShapes(known)
+	unmarshalShapeMismatches(cs, f, evals)
 	for i := 0; i < rounds; i++ {
 		for ti, t := range unmTypes {
 			rt := true
